@@ -706,6 +706,7 @@ func runVdrSpec(spec *VdrSpec, scratch string) *VdrResult {
 			v.initView[f.Node] = f
 		}
 	}
+	v.buildChecks()
 	to := time.Duration(spec.TimeoutS) * time.Second
 	if to == 0 {
 		to = 40 * time.Second
@@ -800,6 +801,7 @@ func (v *vdrRun) loop() {
 			v.observe(false)
 			v.preFinal = v.snapshot(true)
 			v.collectPreNames(v.preFinal)
+			v.valueChecks(v.preFinal)
 			r.log("complete", "", string(st))
 			r.ps.VDRKill()
 			r.ps.VerifStorageBarrier()
